@@ -14,7 +14,9 @@ A scenario is one line of `key=value` tokens in a fixed order (the Lean driver r
   al=<len>     adapted body length (abody(len))
   acl=0|1      adapted head carries Content-Length
   ch=<n>       chunk size of the adapted body (0 = one chunk)
-  cut=<n>      stop the ICAP reply after n bytes (-1 = whole reply); cut positions are meant relative to the reply this runner builds
+  cut=-|i<n>|t<n>|b<n>|z|y   the ICAP reply stops: never / after n bytes of the ICAP head / after the ICAP head and n bytes of the
+               adapted HTTP head / right after the n-th adapted body byte (both heads complete; b0 = right after the heads) /
+               after all body chunks but before the last-chunk / in the middle of the last-chunk
   end=k|c|r    afterwards keep / close / reset the ICAP connection
   seg=<n>      write segmentation of the ICAP reply
   uob=<n>      use-original-body offset for act=206
@@ -31,10 +33,10 @@ VERIF = os.path.dirname(os.path.dirname(os.path.abspath(__file__)))
 if VERIF not in sys.path:
     sys.path.insert(0, VERIF)
 from e2e import rig
-from e2e.icap_stub import IcapStub, chunked
+from e2e.icap_stub import IcapStub, chunked, reply_parts, body_offset
 
 KEYS = ["m", "p", "b", "u", "vk", "vl", "pre", "at", "act", "al", "acl", "ch", "cut", "end", "seg", "uob"]
-PREVIEWS = ["n", "0", "5", "100", "70000"]
+PREVIEWS = ["n", "0", "5", "100", "4096"]
 BACKUP = 65536          # BodyPipe::MaxCapacity == TheBackupLimit
 
 
@@ -74,7 +76,7 @@ def parse(line):
             return None
         d[k] = t[len(k) + 1:]
     try:
-        for k in ("b", "u", "vl", "pre", "al", "acl", "ch", "cut", "seg", "uob"):
+        for k in ("b", "u", "vl", "pre", "al", "acl", "ch", "seg", "uob"):
             d[k] = int(d[k])
     except ValueError:
         return None
@@ -82,10 +84,16 @@ def parse(line):
         return None
     if not re.fullmatch(r"h|p|e|c\d+", d["at"]) or not re.fullmatch(r"204|200|200n|200r|206|e\d{3}|g|x|r|100", d["act"]):
         return None
+    if not re.fullmatch(r"-|[itb]\d+|z|y", d["cut"]):
+        return None
     if d["vk"] == "n" and (d["vl"] or d["pre"]):
         return None
     if d["pre"] > d["vl"] or d["vl"] > 400000 or d["al"] > 400000:
         return None
+    if d["at"] not in ("h", "p") and d["pre"] != d["vl"]:
+        return None      # the stub would wait for body bytes that are held back until it acts
+    if d["cut"] != "-" and d["end"] == "k":
+        return None      # a cut reply on an open connection only ends with the I/O timeout
     return d
 
 
@@ -122,7 +130,7 @@ class Harness:
         conf = ["cache deny all", "icap_enable on", "icap_preview_enable on", "icap_206_enable on",
                 "icap_persistent_connections " + ("on" if pconn else "off"), "icap_service_failure_limit -1",
                 "adaptation_send_client_ip off", "icap_io_timeout 20 seconds", "icap_connect_timeout 10 seconds",
-                "mime_table /dev/null" if False else ""]
+                os.environ.get("C60_SQUID_CONF", "")]
         names = []
         for m in ("rq", "rs"):
             for p in PREVIEWS:
@@ -178,8 +186,23 @@ class Harness:
         elif d["acl"]:
             ahead += b"Content-Length: %d\r\n" % len(adapted_expected(d))
         ahead += b"\r\n"
-        beh = {"at": d["at"], "act": d["act"], "head": ahead, "body": A, "chunk": d["ch"], "cut": None if d["cut"] < 0 else d["cut"],
+        beh = {"at": d["at"], "act": d["act"], "head": ahead, "body": A, "chunk": d["ch"], "cut": None,
                "end": d["end"], "seg": d["seg"], "uob": d["uob"], "gate": gate}
+        if d["cut"] != "-":
+            parts = reply_parts("RESPMOD" if d["m"] == "rs" else "REQMOD", beh, self.icap.istag)
+            if parts is not None:
+                ih, hh, bs = parts
+                k, n = d["cut"][0], int(d["cut"][1:] or 0)
+                if k == "i":
+                    beh["cut"] = min(n, len(ih))
+                elif k == "t":
+                    beh["cut"] = len(ih) + min(n, len(hh))
+                elif k == "b":
+                    beh["cut"] = len(ih) + len(hh) + (0 if n == 0 or not bs else body_offset(len(A), d["ch"], min(n, len(A)) or None))
+                elif k == "z":
+                    beh["cut"] = len(ih) + len(hh) + (body_offset(len(A), d["ch"], None) if bs else 0)
+                else:
+                    beh["cut"] = len(ih) + len(hh) + (body_offset(len(A), d["ch"], None) + 3 if bs else 0)
         self.icap.on(sid, beh)
         T = 12 * rig.VERIF_SLOW
         # ---- origin behaviour
@@ -302,6 +325,6 @@ if __name__ == "__main__":
             print(l)
             print("   -> " + o)
         if "--log" in sys.argv:
-            print(h.squid.cache_log()[-6000:])
+            open("/tmp/c60_cache.log","w").write(h.squid.cache_log())
     finally:
         h.close()
